@@ -502,3 +502,74 @@ func boolArg(info *types.Info, call *ast.CallExpr, i int) (val, ok bool) {
 	}
 	return constant.BoolVal(v), true
 }
+
+// rowsErrChecked: a result set that is iterated with `for X.Next()` (database/sql Rows or the proxy's ScanRows)
+// ends either because the rows are exhausted or because reading failed; only X.Err() tells which. Every exit that
+// reports success after such a loop has asked X.Err() and seen nil (or returns its answer).
+func rowsErrChecked(r *core.Run, rule string, fns []*core.FuncInfo) int {
+	w := r.W
+	n := 0
+	isRows := func(t types.Type) bool {
+		if t == nil {
+			return false
+		}
+		s := t.String()
+		return s == "*database/sql.Rows" || strings.HasSuffix(s, "/pkg/datasource/sql/util.ScanRows")
+	}
+	for _, f := range dedupFns(fns) {
+		if f == nil || f.Decl.Body == nil || w.IsTestFile(f.Decl.Pos()) {
+			continue
+		}
+		info := f.Pkg.TypesInfo
+		var rowsObj types.Object
+		ast.Inspect(f.Decl.Body, func(x ast.Node) bool {
+			fs, ok := x.(*ast.ForStmt)
+			if !ok || fs.Cond == nil {
+				return true
+			}
+			if c, ok := ast.Unparen(fs.Cond).(*ast.CallExpr); ok {
+				if sel, ok := ast.Unparen(c.Fun).(*ast.SelectorExpr); ok && sel.Sel.Name == "Next" && isRows(info.TypeOf(sel.X)) {
+					rowsObj = core.ObjOf(info, sel.X)
+				}
+			}
+			return true
+		})
+		if rowsObj == nil {
+			continue
+		}
+		r.Fn(f)
+		sp := &flow.Spec{W: w, Depth: 0, Classify: func(pkg *packages.Package, call *ast.CallExpr, callee *types.Func) []flow.Tag {
+			if recvObj(pkg.TypesInfo, call) != rowsObj || callee == nil {
+				return nil
+			}
+			switch callee.Name() {
+			case "Next":
+				return []flow.Tag{"next"}
+			case "Err":
+				return []flow.Tag{"rowserr"}
+			}
+			return nil
+		}}
+		res := sp.Analyze(f)
+		for _, ex := range res.Exits {
+			if ex.Class == flow.ExitErr || !ex.St.Maybe("next") {
+				continue
+			}
+			// a function without an error result: only the exits taken after Next answered false are judged
+			// (an exit from inside the loop is that function's way of giving up)
+			if ex.Class == flow.ExitNoErr && !ex.St.Maybe("false:next") {
+				continue
+			}
+			n++
+			r.Sites++
+			via := ex.ErrOrigin != nil && inSet("rowserr", ex.ErrOrigin.Tags...)
+			okc := ex.St.Has("ok:rowserr") || via
+			if ex.Class == flow.ExitNoErr {
+				okc = ex.St.Has("rowserr")
+			}
+			r.Check(okc, rule, core.ShortKey(f.Obj)+" "+exitRole(ex, func(t string) bool { return strings.HasSuffix(t, "rowserr") })+" : the rows were read to the end (Err() asked) before success is reported", w.Pos(ex.Pos),
+				rowsObj.Name()+".Err() is nil on this path", "the loop over "+rowsObj.Name()+".Next() also ends when reading fails (lock wait timeout, killed query, lost connection); this exit reports success without having asked "+rowsObj.Name()+".Err(): a truncated or empty result is taken for the real rows")
+		}
+	}
+	return n
+}
